@@ -25,8 +25,8 @@ pub fn prop() -> Prop {
         id: "C03",
         level: "exploration",
         runs: |t| match t {
-            Tier::Quick => 900,
-            Tier::Thorough => 14000,
+            Tier::Quick => 2400,
+            Tier::Thorough => 30000,
         },
         generate,
         exec,
